@@ -306,6 +306,35 @@ def P(e, o):
             return t
         if o.uf and e.isd and e.op in UFOPS:
             return '%s(%s, %s)' % (UFOPS[e.op], P(e.a, o), P(e.b, o))
+        if getattr(o, 'abstract_nonlinear', False) and not o.uf and e.isd and e.op in ('*', '/'):
+            # single-program queries that only need the linear facts: a product of two non-literal doubles and every
+            # quotient is an uninterpreted function of its operands (any function: sound over-approximation; equal
+            # operands still give equal results).  Products with a literal factor keep IEEE semantics.
+            def islit(x):
+                while x.k in ('paren', 'cast'):
+                    x = x.a
+                return x.k in ('flit', 'ilit') or (x.k == 'un' and x.op == '-' and islit(x.a))
+
+            def isdraw0(x):
+                while x.k == 'paren':
+                    x = x.a
+                return x.k == 'call' and x.a == 'bx_draw'
+            if e.op == '/':
+                return 'bx_divx(%s, %s)' % (P(e.a, o), P(e.b, o))
+            if not (islit(e.a) or islit(e.b)) and not (getattr(o, 'scale_draw', False) and (isdraw0(e.a) != isdraw0(e.b))):
+                return 'bx_mulx(%s, %s)' % (P(e.a, o), P(e.b, o))
+        if getattr(o, 'scale_draw', False) and e.op == '*' and not o.uf:
+            # deviate * x  (0 < deviate < 1): abstracted to ANY value between 0 and x -- a sound over-approximation of the
+            # IEEE product (round-to-nearest is monotone), chosen because a symbolic 53x53-bit multiplier defeats the SAT
+            # back end while the interval does not
+            def isdraw(x):
+                while x.k == 'paren':
+                    x = x.a
+                return x.k == 'call' and x.a == 'bx_draw'
+            if isdraw(e.a) and not isdraw(e.b):
+                return 'bx_scale(%s, %s)' % (P(e.a, o), P(e.b, o))
+            if isdraw(e.b) and not isdraw(e.a):
+                return 'bx_scale(%s, %s)' % (P(e.b, o), P(e.a, o))
         return '(%s %s %s)' % (P(e.a, o), e.op, P(e.b, o))
     if k == 'assign':
         if e.op == '=':
